@@ -677,7 +677,11 @@ func (c *Client) Do(ctx context.Context, q Query) (err error) {
 	done := make(chan struct{})
 	var (
 		gotException atomic.Bool
-		colInfo      chan proto.ColInfoInput
+		// receiveFailed is set before done is closed, so that the cancel-watch
+		// sees a failed receive loop even if the group context is not
+		// cancelled yet.
+		receiveFailed atomic.Bool
+		colInfo       chan proto.ColInfoInput
 	)
 	if q.Result == nil && len(q.Input) > 0 {
 		// Handling input column type inference, e.g. enums.
@@ -726,9 +730,14 @@ func (c *Client) Do(ctx context.Context, q Query) (err error) {
 		}
 		return nil
 	})
-	g.Go(func() error {
+	g.Go(func() (rerr error) {
 		// Receiving query result, data and telemetry.
 		defer close(done)
+		defer func() {
+			if rerr != nil {
+				receiveFailed.Store(true)
+			}
+		}()
 		if colInfo != nil {
 			defer close(colInfo)
 		}
@@ -770,9 +779,18 @@ func (c *Client) Do(ctx context.Context, q Query) (err error) {
 	g.Go(func() error {
 		<-done
 		// Handling query cancellation if needed.
-		if ctx.Err() != nil && !gotException.Load() {
-			err := multierr.Append(ctx.Err(), c.cancelQuery())
+		if gotException.Load() {
+			return nil
+		}
+		if ctxErr := ctx.Err(); ctxErr != nil {
+			err := multierr.Append(ctxErr, c.cancelQuery())
 			return errors.Wrap(err, "canceled")
+		}
+		if receiveFailed.Load() {
+			// The receive loop failed (the group reports its error) and left
+			// the stream in the middle of a packet, but the group context may
+			// not be cancelled yet: the connection must not be reused.
+			_ = c.cancelQuery()
 		}
 		return nil
 	})
